@@ -23,6 +23,7 @@ RULE = (
     "endblock names (matching, absent, mismatched), duplicate block names and extends cycles (incl. self-extends). Every text item is a "
     "unique marker so the output exposes which definition rendered. Non-trivial = chain with >= 1 block, distinct by the printed sources."
     " Rounds 5-6 added enumerated families: loops around a block's place seen through block.super; a third of all chains under autoescape."
+    " Round 7 added: the extends tag inside 13 wrappers and a liquid tag at every chain position."
 )
 REQUIRED = [
     ("liquid/extra/tags/extends_tag.py", "_build_block_stacks"),
